@@ -255,6 +255,7 @@ def writer_functions(idx):
 def check_o1_o4(rep, idx):
     rep.rule("O1", "every coeffRef / recursive call in the *_sparse writers is offset by i0", minimum=14)
     rep.rule("O4", "*_sparse writers call no structure-changing member on the host matrix", minimum=8)
+    rep.rule("O6", "writers neither sweep whole host columns nor skip pattern entries on a value-dependent branch", minimum=0)
     ws = writer_functions(idx)
     if len(ws) < 9:
         rep.broke("only %d *_sparse writer functions found in lie_group_sparse_impl.hpp (9 confirmed by hand)" % len(ws))
@@ -330,6 +331,42 @@ def check_o1_o4(rep, idx):
                         rep.violation(Finding("O1", d.qname, "call", "recursive sparse call passes offset `%s`, expected i0 or i0 + <part start>" % A.show(a), f, l))
                 elif has_i0 and d.qname.split("::")[-1] not in ("dr_expinv_sparse", "d2r_expinv_sparse"):
                     rep.violation(Finding("O1", d.qname, "call", "recursive sparse call drops the block offset argument", f, l))
+        # O6a: iterating the *host* matrix column by column reaches every stored row of that column, not only the rows of the block
+        for x in A.walk(b):
+            if x.get("kind") == "VarDecl" and "InnerIterator" in x.get("type", {}).get("qualType", "") and A.kids(x):
+                init = A.to_expr(A.kids(x)[-1])
+                args = init[2] if init[0] in ("ctor", "call") else (init[1] if init[0] == "init" else [])
+                if args and args[0][0] == "ref" and args[0][1] == "sp":
+                    itn = x.get("name")
+                    loop = parents.get(id(parents.get(id(x)))) if parents.get(id(x)) is not None else None
+                    scope = loop if loop is not None else b
+                    txt = A.ntext(scope)
+                    writes = (itn + ".valueRef()") in txt
+                    guarded = (itn + ".row()") in txt and "i0" in txt[txt.find(itn + ".row()"):txt.find(itn + ".row()") + 80]
+                    f, l = A.loc(x)
+                    rep.instance("O6", d.qname, "host iteration @%s" % l, ok=not writes or guarded, sample={"file": fe.rel(f), "line": l})
+                    if writes and not guarded:
+                        rep.violation(Finding("O6", d.qname, "host iteration",
+                                              "the writer iterates the stored entries of the host's column (`InnerIterator %s(sp, ...)`) and writes through "
+                                              "%s.valueRef() without restricting %s.row() to [i0, i0 + Dof): stored entries of other variables in the same "
+                                              "columns are overwritten" % (itn, itn, itn), f, l))
+        # O6b: a run-time branch on the tangent must still write the whole pattern
+        for x in A.walk_nolambda(b):
+            if x.get("kind") == "IfStmt" and not x.get("isConstexpr"):
+                ks_ = A.kids(x)
+                if not ks_:
+                    continue
+                cnd = A.to_expr(ks_[0])
+                if "a" not in A.refs(cnd):
+                    continue
+                f, l = A.loc(x)
+                then_txt = A.ntext(ks_[1]) if len(ks_) > 1 else ""
+                covers = "_sparse_pattern<" in then_txt or "_sparse(" in then_txt
+                rep.instance("O6", d.qname, "value-dependent branch @%s" % l, ok=covers, sample={"file": fe.rel(f), "line": l, "condition": A.show(cnd)[:60]})
+                if not covers:
+                    rep.violation(Finding("O6", d.qname, "value-dependent branch",
+                                          "for tangents with `%s` the writer takes a run-time branch that does not go over the published pattern: pattern entries it "
+                                          "does not write keep whatever the host held before (the block no longer equals the dense result)" % A.show(cnd)[:60], f, l))
         rep.instance("O4", d.qname, "structure", ok=n_bad_struct == 0, sample={"file": fe.rel(d.file), "line": d.line})
 
 
